@@ -168,6 +168,32 @@ fn vp_native_target_and_host_matrix_body() {
         let want_host = match host_url.port() { Some(pt) => format!("{}:{}", host_url.host_str().unwrap(), pt), None => host_url.host_str().unwrap().to_string() };
         assert_eq!(hosts[0], want_host.as_bytes(), "Host for {} (proxy {:?})", u, p);
     } } }
+    // what a connection carries is this request and nothing of an earlier one: a request whose body fails while it is written (after
+    // the head was produced, before anything was flushed), then other requests on the same thread, each written to its own connection
+    {
+        struct FailsAfter(usize, bool);
+        impl Body for FailsAfter {
+            fn kind(&mut self) -> IoResult<BodyKind> { Ok(if self.1 { BodyKind::Chunked } else { BodyKind::KnownLength(100) }) }
+            fn write<W: Write>(&mut self, mut w: W) -> IoResult<()> { w.write_all(&vec![b'F'; self.0])?; Err(std::io::Error::new(std::io::ErrorKind::Other, "the body source failed")) }
+        }
+        for fail_after in [0usize, 4, 9000] { for chunked in [false, true] {
+            let mut bad = crate::post("http://first.test/first/upload?a=1").header("X-First", "1").body(FailsAfter(fail_after, chunked)).prepare();
+            let u1 = bad.url().clone(); set_host(&mut bad.headers, &u1).unwrap();
+            let mut sink1 = Vec::new();
+            assert!(bad.write_request(&mut sink1, &u1, None).is_err(), "a body that fails makes the request fail");
+            for (k, u) in ["http://second.test/second?b=2", "http://third.test:8080/"].into_iter().enumerate() {
+                let mut ok = crate::get(u).prepare();
+                let url = ok.url().clone(); set_host(&mut ok.headers, &url).unwrap();
+                let mut wire = Vec::new(); ok.write_request(&mut wire, &url, None).unwrap();
+                let r = decode_request(&wire); cases += 1; crate::verif_native_watchdog::progress();
+                let ctx = format!("request {} after one whose body failed after {} bytes (chunked: {})", k + 2, fail_after, chunked);
+                assert!(wire.starts_with(format!("GET {} HTTP/1.1\r\n", &url[url::Position::BeforePath..url::Position::AfterQuery]).as_bytes()), "{}: the connection starts with {:?}", ctx, String::from_utf8_lossy(&wire[..wire.len().min(60)]));
+                assert!(r.trailing.is_empty() && r.body.is_empty(), "{}: bytes beyond the request", ctx);
+                assert_eq!(header(&r, "host").len(), 1, "{}: exactly one Host field", ctx);
+                assert!(header(&r, "x-first").is_empty() && !wire.windows(5).any(|w| w == b"FFFFF"), "{}: bytes of the failed request on this connection", ctx);
+            }
+        } }
+    }
     println!("VP-NATIVE target_and_host_matrix cases={}", cases);
 }
 
